@@ -1,6 +1,7 @@
 import FiberModel.DriverUtil
 import FiberModel.C05.Spec
 import FiberModel.C05.Facts
+import FiberModel.C05.Sched
 /-
 Driver for C05. Case fields (after the id):
   mode(0..4)  hist(`;`-separated requests or `-`)  probe  freshObs  fullDiff(`,`-list or `-`)  implObs
@@ -99,6 +100,33 @@ def renderObs (o : Obs) : String :=
 
 def facts : RFacts := theFacts
 
+/-- one worker of the concurrent mix: serves `reqs` one after the other (ids `base`, `base+1`, …); every
+    `Get` of worker `w` asks for pooled object number `w` (so the workers make different pool choices) -/
+def workerEvents (base w : Nat) (reqs : List Req) : List Ev :=
+  (reqs.zipIdx).flatMap fun (r, i) => soloEvents (base + i) r ⟨w, w⟩
+
+/-- round-robin interleaving of the workers' steps -/
+def roundRobin : Nat → List (List Ev) → List Ev
+  | 0, _ => []
+  | fuel + 1, ls =>
+    let ls := ls.filter (!·.isEmpty)
+    if ls.isEmpty then [] else ls.filterMap List.head? ++ roundRobin fuel (ls.map List.tail)
+
+/-- mode 2: the model is the schedule semantics (`Sched.lean`) on a round-robin interleaving of four workers;
+    every worker's probe must have observed the same -/
+def mixObs (hs : List Req) (p : Req) : String :=
+  let reqs := hs ++ [p]
+  let ws := List.range 4
+  let evss := ws.map fun w => workerEvents (1000 * (w + 1)) w reqs
+  let evs := roundRobin ((evss.map List.length).foldl (· + ·) 0 + 1) evss
+  let fin := runSched facts CWorld.empty evs
+  let obs := ws.map fun w => match obsOf fin (1000 * (w + 1) + hs.length) with
+    | some o => renderObs o
+    | none => "noresponse"
+  match obs with
+  | o :: rest => if rest.all (· == o) then o else "schedule-dependent:" ++ ";;".intercalate obs
+  | [] => "noresponse"
+
 def handleCase (f : List String) : Except String Verdict := do
   match f with
   | [id, mode, hist, probe, fresh, diff, impl] =>
@@ -114,7 +142,8 @@ def handleCase (f : List String) : Except String Verdict := do
     let diffs := if diff == "-" then [] else diff.splitOn ","
     -- model: one worker, so sync.Pool hands back the most recently released object
     let lifo : Pick := ⟨0, 0⟩
-    let mo := match probeAfter facts (hs.map fun r => (r, lifo)) p lifo with
+    let mo := if mode == "2" then mixObs hs p else
+      match probeAfter facts (hs.map fun r => (r, lifo)) p lifo with
       | some o => renderObs o
       | none => "noresponse"
     let served := hs.filter (·.bad == 0)
